@@ -16,5 +16,6 @@ CONSTANTS
 INIT Init
 NEXT Next
 INVARIANTS TypeOK LaxSuperset LaxOnlyDocumented LaxPropagates AncestorDepth LaxIsLocal StrictEqUpstream DiffsAreDiffs
-           Rejected BenignAccepted RoundTrip TimeRoundTripDER ZoneOffsetRoundTrip TimeFormsAccepted TagByWrittenYear LengthRoundTrip LengthFormsRejected RawContentKeeps Export
+           Rejected BenignAccepted RoundTrip TimeRoundTripDER ZoneOffsetRoundTrip TimeFormsAccepted TagByWrittenYear LengthRoundTrip LengthFormsRejected RawContentKeeps
+           ClassQuirkNamed ClassDefaultContext ClassRoundTrip ClassMismatch Export
 CHECK_DEADLOCK FALSE
